@@ -1,11 +1,15 @@
 """C10 — ThreadPool: lockset, take-atomic, run-unlocked, predicate-write => notify,
-notify kind, job lifetime, busy pairing, join unlocked (engine B).
+notify kind, job lifetime, busy pairing, join unlocked, return of the blocking members only after their whole wait predicate (engine B).
 
 Verdict policy of this file: a violation is reported only on positive evidence (a lock state computed over lock
 operations that are all recognised, a CFG path that avoids a set of fully classified operations, a truth table, an
 evaluation of the join loop for a concrete thread count).  Whatever is not recognised (an unknown use of the mutex or of
 a guard, an unclassified operation on a counter / the queue / the job object, a helper that was not inlined, a branch on a
 control-flow flag on the witness path) makes the answer `cannot decide` (dtable.Undecidable, exit 2).
+
+A local lvalue reference that is bound directly to a data member (`const std::atomic<bool>& stop = terminate_;`) is replaced by
+that member wherever it is mentioned, also inside lambdas that capture it by reference (resolve_member_aliases): the rules then
+judge the operations on the member itself.  A copy capture, a static reference or a pointer to the member is left alone.
 
 A local lambda that is only called by name in statement position (`const auto step = [this, &lock] {...}; step();`, also in the
 init / increment slot of a for loop) is expanded at its calls before the rules run (inline_local_lambdas); every other lambda
@@ -65,6 +69,8 @@ def mentions(e, field):
 
 # ------------------------------------------------------------------------------------------------ local lambdas called by name
 LOOPS = ("WhileStmt", "ForStmt", "DoStmt", "CXXForRangeStmt")
+# terminators of a CFG block whose two successors are `condition true` / `condition false` (&& and || are BinaryOperators)
+TWO_WAY = ("IfStmt", "WhileStmt", "ForStmt", "DoStmt", "ConditionalOperator", "BinaryOperator")
 
 
 def _lambda_of(e):
@@ -253,6 +259,144 @@ def inline_local_lambdas(tu, fn):
     fn._parent = None
     fn.normalized = True
     return gone
+
+
+# ------------------------------------------------------------------------------------------------ reference aliases of data members
+NOOP_CASTS = ("ImplicitCastExpr", "CStyleCastExpr", "CXXStaticCastExpr", "CXXFunctionalCastExpr", "CXXConstCastExpr")
+
+
+def _bare_ty(t):
+    t = (t or "").replace("const ", "").replace(" const", "").strip()
+    return t.rstrip("&").strip().replace(" ", "")
+
+
+def _alias_target(v):
+    """the expression this->f that the local lvalue reference v is bound to directly (`const std::atomic<bool>& stop = terminate_;`),
+    else None.  Only qualification conversions are looked through: a reference that binds to a temporary (a converted value), to a
+    base sub-object or to an element is not an alias of the member"""
+    ty = (v.get("ty") or "").rstrip()
+    if v["k"] != "VarDecl" or v.get("did") is None or v.get("static") or not ty.endswith("&") or ty.endswith("&&") or not kids(v):
+        return None
+    e = kids(v)[0]
+    while e is not None and kids(e) and (e["k"] == "ParenExpr" or (e["k"] in NOOP_CASTS and e.get("cast") == "NoOp")):
+        e = kids(e)[0]
+    if e is None or e["k"] != "MemberExpr" or not e.get("lv") or not match.this_field(e):
+        return None
+    if _bare_ty(ty) != _bare_ty(e.get("ty")):
+        return None
+    return e
+
+
+def _resolve_aliases_once(tu, fn):
+    targets = {}
+    for v in ir.walk(fn.body):
+        if v["k"] == "VarDecl":
+            t = _alias_target(v)
+            if t is not None:
+                targets[v["did"]] = t
+    if not targets:
+        return 0
+    lams = lambdas_in(tu, fn)
+    lam_by_did = {lf.did: (lx, lf) for lx, lf in lams if lf is not None}
+    # every mention outside fn must sit in a lambda of fn that captures the reference BY REFERENCE (a copy capture of a
+    # reference variable copies the object it names: that is a snapshot, not an alias)
+    for did in list(targets):
+        ok = True
+        for lx, lf in lams:
+            for c in (lx.get("captures") or []):
+                if c.get("id") == did and (not c.get("byref") or lf is None or lf.body is None):
+                    ok = False
+        for f2 in tu.functions:
+            if f2 is fn or not ok:
+                continue
+            if any(y["k"] == "DeclRefExpr" and y["ref"]["id"] == did for y in f2.nodes()):
+                if f2.did not in lam_by_did or not any(c.get("id") == did and c.get("byref") for c in (lam_by_did[f2.did][0].get("captures") or [])):
+                    ok = False
+        if not ok:
+            del targets[did]
+    if not targets:
+        return 0
+    rw = normalize.Rewriter(tu, fn)
+    body = copy.deepcopy(fn.body)
+    par = _parents(body)
+    decl = {}
+    for v in ir.walk(body):
+        if v["k"] == "VarDecl" and v.get("did") in targets:
+            ds = par.get(v["id"])
+            if ds is None or ds["k"] != "DeclStmt" or par.get(ds["id"]) is None or par[ds["id"]]["k"] != "CompoundStmt":
+                del targets[v["did"]]         # declared in the head of an if / a loop: left as it is
+            else:
+                decl[v["did"]] = (v, ds)
+    if not targets:
+        return 0
+    count = [0]
+
+    def subst(n):
+        if n is None:
+            return None
+        if n["k"] == "DeclRefExpr" and n["ref"]["id"] in targets:
+            count[0] += 1
+            m = rw.clone(targets[n["ref"]["id"]])
+            for y in ir.walk(m):                 # reports name the line of the use
+                if n.get("l") is not None:
+                    y["l"] = n["l"]
+            return m
+        if n["k"] == "LambdaExpr" and n.get("captures"):
+            n["captures"] = [c for c in n["captures"] if c.get("id") not in targets]
+        for key in ("init", "condvar"):
+            if key in n and isinstance(n[key], dict):
+                n[key] = subst(n[key])
+        if "ch" in n:
+            n["ch"] = [subst(c) for c in n["ch"]]
+        return n
+    # the declarations go away first (their initialisers are the targets themselves)
+    for did, (v, ds) in decl.items():
+        ds["ch"] = [c for c in ds["ch"] if c is not v]
+        if not ds["ch"]:
+            comp = par[ds["id"]]
+            comp["ch"] = [c for c in comp["ch"] if c is not ds]
+    subst(body)
+    lam_new = []
+    for lx, lf in lams:
+        if lf is None or lf.body is None:
+            continue
+        if not any((y["k"] == "DeclRefExpr" and y["ref"]["id"] in targets) or
+                   (y["k"] == "LambdaExpr" and any(c.get("id") in targets for c in (y.get("captures") or []))) for y in ir.walk(lf.body)):
+            continue
+        lb = subst(copy.deepcopy(lf.body))
+        lam_new.append((lf, lb, cfgbuild.build(lb) if lf.cfg else lf.cfg))
+    cfg = cfgbuild.build(body)
+    for f, b, c in [(fn, body, cfg)] + lam_new:
+        f.body, f.cfg = b, c
+        f.d = dict(f.d)
+        f.d["body"], f.d["cfg"] = b, c
+        f._byid = None
+        f._parent = None
+        f.normalized = True
+    return len(targets)
+
+
+def resolve_member_aliases(tu, fn):
+    """`const std::deque<Job>& pending = jobs_;  const std::atomic<size_t>& running = busy_;  ...  [&pending, &running] { return
+    pending.empty() && running == 0; }` - a local lvalue reference that is bound directly to a data member of *this names that
+    member wherever it is mentioned: a reference cannot be re-seated and `this` does not change, and a by-reference capture of a
+    reference refers to the object it is bound to.  Every mention of such a local, in fn and in the lambdas of fn that capture it
+    by reference, is replaced by this->member and the declaration (which accesses nothing) is dropped: the rules then see the
+    operations on the member where they are executed.  Aliases of aliases are resolved in further rounds.  Whatever does not fit
+    (a copy capture, a static reference, a declaration in the head of a statement, a CFG that cannot be rebuilt) leaves fn as it
+    is.  Returns the number of aliases resolved."""
+    if fn.body is None or fn.kind == "lambda" or not fn.cfg:
+        return 0
+    total = 0
+    for _ in range(4):
+        try:
+            n = _resolve_aliases_once(tu, fn)
+        except (normalize.Fail, cfgbuild.Unsupported, KeyError, IndexError, TypeError):
+            n = 0
+        if not n:
+            break
+        total += n
+    return total
 
 
 # ------------------------------------------------------------------------------------------------ uses of the data members
@@ -609,22 +753,25 @@ def pred_atom(n, run=None):
     return None
 
 
+def pred_expr(tu, wait):
+    """(expression, negated, function it is evaluated in) of the predicate of a wait: the value of the predicate lambda, or the
+    negated condition of the loop that re-checks around a bare wait"""
+    lam = wait["pred"]
+    if lam is None:
+        return wait["loop_cond"], True, wait["fn"]
+    lf = tu.by_did.get(lam.get("fn"))
+    if lf is None:
+        raise dtable.Undecidable("predicate lambda body not in IR")
+    e = dtable.stmts_as_expr(kids(lf.body))
+    if e is None:
+        raise dtable.Undecidable("%s: body of the predicate lambda is not of the form decl* (if (c) return e;)* return e;" % lf.loc)
+    return e, False, lf
+
+
 def pred_info(tu, wait):
     """(canonical text, {atom: monotone direction}, function holding the predicate) of the predicate of a wait:
     a lambda (inline or named), or the negated condition of the loop that re-checks around a bare wait"""
-    lam = wait["pred"]
-    negate = False
-    if lam is None:
-        e = wait["loop_cond"]
-        negate = True
-        lf = wait["fn"]
-    else:
-        lf = tu.by_did.get(lam.get("fn"))
-        if lf is None:
-            raise dtable.Undecidable("predicate lambda body not in IR")
-        e = dtable.stmts_as_expr(kids(lf.body))
-        if e is None:
-            raise dtable.Undecidable("%s: body of the predicate lambda is not of the form decl* (if (c) return e;)* return e;" % lf.loc)
+    e, negate, lf = pred_expr(tu, wait)
     leaves = dtable.explore(e, pred_atom, lf, as_expr=True)
     atoms = sorted(dtable.atoms_of(leaves))
     rows = {}
@@ -663,6 +810,20 @@ def recheck_loop_cond(fn, wnode):
         return None, "range-for around the wait"
     init, cond, inc, body = match.loop_parts(par)
     if cond is None or const_int(cond) is not None:
+        # for (;;) { if (c) break; ... wait ... }: the only way out of the loop is the break, taken when c has just been found true
+        stmts = [s for s in (kids(body) if body is not None and body["k"] == "CompoundStmt" else [body]) if s is not None]
+        exits = [y for s in stmts for y in ir.walk(s) if y["k"] in ("BreakStmt", "ReturnStmt", "GotoStmt", "ContinueStmt", "CXXThrowExpr")]
+        nested = [y for s in stmts for y in ir.walk(s) if y["k"] in LOOPS + ("SwitchStmt", "LabelStmt", "CXXTryStmt")]
+
+        def only_break(t):
+            while t is not None and t["k"] == "CompoundStmt" and len([x for x in kids(t) if x is not None]) == 1:
+                t = [x for x in kids(t) if x is not None][0]
+            return t is not None and t["k"] == "BreakStmt"
+        cands = [s for s in stmts if s["k"] == "IfStmt" and "init" not in s and "condvar" not in s and len(kids(s)) >= 2 and
+                 (len(kids(s)) < 3 or kids(s)[2] is None) and kids(s)[0] is not None and only_break(kids(s)[1])]
+        if (cond is None or const_int(cond) != 0) and len(cands) == 1 and len(exits) == 1 and not nested and par["k"] != "DoStmt":
+            c = kids(cands[0])[0]
+            return {"k": "UnaryOperator", "op": "!", "id": -12, "ty": "bool", "l": c.get("l"), "ch": [c]}, None
         return None, "the loop around the wait is left by other means than its condition"
     if any(y["k"] in ("BreakStmt", "ReturnStmt", "GotoStmt") for y in ir.walk(body)):
         return None, "the loop around the wait has more than one exit"
@@ -732,13 +893,83 @@ def lambda_evaluations(locks, fns, lam):
 
 
 # ------------------------------------------------------------------------------------------------ TAKE-ATOMIC
+ASSIGN_OPS = ("=", "+=", "-=", "*=", "/=", "%=", "|=", "&=", "^=", "<<=", ">>=")
+
+
+def queue_tainted(locks, fn):
+    """(dids, bindings): the locals / parameters of fn whose value may have been computed from the job queue, and whether a
+    structured binding may have been.  Closed world, over-approximated: a local is tainted if its initialiser reads the queue
+    (directly, through a member of the pool, through a tainted local or through a lambda that reads it), if it occurs on the
+    left of an assignment (of any form: `x = ..`, `std::tie(x, y) = ..`, `s.f = ..`, `*p = ..`) or among the arguments of a
+    call whose other operands read the queue, if it is captured by reference by a lambda that reads the queue, or if its
+    address is taken / it is bound to a reference while the function reads the queue at all."""
+    def is_local(y):
+        return y["k"] == "DeclRefExpr" and y["ref"].get("kind") in ("local", "param")
+
+    def reads_queue(y):
+        if y["k"] == "MemberExpr" and match.this_field(y) == QUEUE:
+            return True
+        if "callee" in y and y["callee"].get("did") in locks.by_did and QUEUE in reach_fields(locks, locks.by_did[y["callee"]["did"]]):
+            return True
+        if y["k"] == "LambdaExpr":
+            lf = fn.tu.by_did.get(y.get("fn")) if getattr(fn, "tu", None) is not None else None
+            return lf is None or any(reads_queue(z) for z in lf.nodes())
+        return False
+    if not any(reads_queue(y) for y in fn.nodes()):
+        return set(), False
+    dids, bindings = set(), False
+
+    def source(e):
+        for y in ir.walk(e):
+            if reads_queue(y) or (is_local(y) and y["ref"]["id"] in dids) or (bindings and y["k"] == "DeclRefExpr" and y["ref"].get("kind") == "binding"):
+                return True
+        return False
+    # escapes: address taken, bound to a reference, captured by reference by a lambda that reads the queue
+    for y in fn.nodes():
+        if y["k"] == "UnaryOperator" and y.get("op") == "&" and kids(y):
+            dids |= set(z["ref"]["id"] for z in ir.walk(kids(y)[0]) if is_local(z))
+        if y["k"] == "VarDecl" and kids(y) and ((y.get("ty") or "").rstrip().endswith("&") or y.get("isref")):
+            e = strip_casts(kids(y)[0])
+            if e is not None and e.get("lv", True):
+                dids |= set(z["ref"]["id"] for z in ir.walk(e) if is_local(z))
+        if y["k"] == "LambdaExpr" and reads_queue(y):
+            dids |= set(c["id"] for c in (y.get("captures") or []) if c.get("byref") and c.get("id") is not None)
+    for _ in range(6):
+        before = (len(dids), bindings)
+        for y in fn.nodes():
+            if y["k"] == "VarDecl" and kids(y) and kids(y)[0] is not None and source(kids(y)[0]):
+                if y.get("name"):
+                    dids.add(y.get("did"))
+                else:
+                    bindings = True          # the unnamed variable of `auto [a, b] = ...`
+                continue
+            b = match.binop(y, ASSIGN_OPS) if y["k"] in ("BinaryOperator", "CompoundAssignOperator", "CXXOperatorCallExpr") else None
+            if b:
+                if source(b[2]):
+                    dids |= set(z["ref"]["id"] for z in ir.walk(b[1]) if is_local(z))
+                continue
+            if "callee" in y and not reads_queue(y) and y["callee"]["name"] not in CONTAINER_READ + ("load", "operator bool"):
+                args = [a for a in kids(y) if a is not None]
+                if any(source(a) for a in args):
+                    for a in args:
+                        if not source(a) or not any(reads_queue(z) for z in ir.walk(a)):
+                            dids |= set(z["ref"]["id"] for z in ir.walk(a) if is_local(z) and a.get("lv"))
+        if (len(dids), bindings) == before:
+            break
+    dids.discard(None)
+    return dids, bindings
+
+
 class QueueStates:
     """forward may-analysis over the CFG of fn: which valuations of (jobs_.empty(), monotone flags such as terminate_) are
     possible before every element.  The queue only changes under mutex_, so what a branch or the predicate of a wait has
     established about it stays true until the mutex is released, re-acquired or waited on (then the emptiness is
     forgotten); a flag that is only ever set to true may flip to true at any time.  Branch conditions and wait predicates
     are evaluated as truth tables over these atoms (any spelling, either branch, through && || ! ?:), every other atom is
-    free.  Whatever touches the queue in a way that is not classified is listed in `unknown`."""
+    free.  A switch is followed label by label if its selector is made of constants, ?: and bool -> int conversions; any other
+    multi-way terminator (another selector, try, range-for) leaves all its edges possible.  Whatever touches the queue in a way
+    that is not classified - an operation, a test, a branch on a local that may have been computed from the queue (closed
+    world, see queue_tainted) - is listed in `unknown`."""
 
     def __init__(self, tu, fn, g, locks, flags):
         self.fn, self.g, self.unknown = fn, g, []
@@ -763,6 +994,19 @@ class QueueStates:
                 out |= set(v[:i] + (True,) + v[i + 1:] for v in out)
             return frozenset(out)
 
+        taint = {}
+
+        def tainted_in(e, in_fn):
+            """a local / parameter / binding read by e whose value may be computed from the queue, else None"""
+            if in_fn.did not in taint:
+                taint[in_fn.did] = queue_tainted(locks, in_fn)
+            dids, bindings = taint[in_fn.did]
+            for y in ir.walk(e):
+                if y["k"] == "DeclRefExpr" and ((y["ref"].get("kind") in ("local", "param") and y["ref"]["id"] in dids) or
+                                                (bindings and y["ref"].get("kind") == "binding")):
+                    return y
+            return None
+
         def atomize(n, run):
             s = strip_casts(n)
             if s is None:
@@ -774,16 +1018,16 @@ class QueueStates:
             if (k == "UnaryOperator" and s.get("op") == "!") or (k == "BinaryOperator" and s.get("op") in ("&&", "||", ",")) or \
                     k in ("ConditionalOperator", "CXXBoolLiteralExpr") or const_int(s) is not None:
                 return None
-            if k == "DeclRefExpr" and s["ref"].get("kind") in ("local", "param"):
-                did = s["ref"]["id"]
-                for y in self.cur_fn.nodes():
-                    b = match.binop(y, ("=",))
-                    if (y["k"] == "VarDecl" and y.get("did") == did and kids(y) and mentions(kids(y)[0], QUEUE)) or \
-                            (b and ref_of(b[1]) == did and mentions(b[2], QUEUE)):
-                        self.unknown.append((s, "branch on the local `%s`, which is computed from %s" % (s["ref"]["name"], QUEUE)))
-            elif mentions(s, QUEUE) or any("callee" in y and y["callee"].get("did") in locks.by_did and
-                                           QUEUE in reach_fields(locks, locks.by_did[y["callee"]["did"]]) for y in ir.walk(s)):
+            if mentions(s, QUEUE) or any("callee" in y and y["callee"].get("did") in locks.by_did and
+                                         QUEUE in reach_fields(locks, locks.by_did[y["callee"]["did"]]) for y in ir.walk(s)):
                 self.unknown.append((s, "test of %s in a form that is not understood: %s" % (QUEUE, dtable.describe(s)[:50])))
+            else:
+                # a leaf that is free here must not depend on the queue: the locals it reads are looked up in a closed world
+                y = tainted_in(s, self.cur_fn)
+                if y is not None:
+                    self.unknown.append((s, "branch on the local `%s`, which is computed from %s" % (y["ref"]["name"], QUEUE)
+                                         if strip_casts(s)["k"] == "DeclRefExpr" else
+                                         "branch on %s, where `%s` may be computed from %s" % (dtable.describe(s)[:40], y["ref"]["name"], QUEUE)))
             return ("opaque:%s" % s["id"], False)
 
         def refine(S, cond, truth, in_fn):
@@ -884,10 +1128,109 @@ class QueueStates:
                     return top
             return S
 
+        def from_queue(cond):
+            """the value of cond may depend on the queue: it mentions it, calls a member of the pool that does, or reads a local
+            that may be computed from it"""
+            for y in ir.walk(cond):
+                if y["k"] == "MemberExpr" and match.this_field(y) == QUEUE:
+                    return True
+                if "callee" in y and y["callee"].get("did") in locks.by_did and QUEUE in reach_fields(locks, locks.by_did[y["callee"]["did"]]):
+                    return True
+            return tainted_in(cond, fn) is not None
+
+        def selector_values(e, depth=0):
+            """the values an integer expression can take, each with the conditions under which it does:
+            [([(condition, truth), ...], value)] for constants, c ? a : b and bool -> int conversions; else None"""
+            while e is not None and kids(e) and (e["k"] == "ParenExpr" or (e["k"] in NOOP_CASTS and e.get("cast") in ("NoOp", "LValueToRValue", "IntegralCast")
+                                                                         and (e.get("from") or "").replace("const ", "") != "bool")):
+                e = kids(e)[0]
+            if e is None or depth > 4:
+                return None
+            c = const_int(e)
+            if c is not None:
+                return [([], c)]
+            if e["k"] in NOOP_CASTS and e.get("cast") == "IntegralCast" and (e.get("from") or "").replace("const ", "") == "bool" and kids(e):
+                return [([(kids(e)[0], True)], 1), ([(kids(e)[0], False)], 0)]
+            if e["k"] == "ConditionalOperator" and len(kids(e)) == 3:
+                c0, a, b = kids(e)
+                va, vb = selector_values(a, depth + 1), selector_values(b, depth + 1)
+                if va is None or vb is None:
+                    return None
+                return [([(c0, True)] + cs, v) for cs, v in va] + [([(c0, False)] + cs, v) for cs, v in vb]
+            return None
+
+        def switch_edge(head, sw, s, out):
+            """the valuations with which a switch goes to its successor s: the selector is evaluated if it is made of constants,
+            ?: and bool -> int conversions over conditions that refine() understands; otherwise every edge stays possible (and a
+            selector that is computed from the queue is listed as not understood)"""
+            sel = kids(sw)[0] if kids(sw) else None
+            labels = []
+            stack = list(kids(sw)[1:])
+            while stack:
+                x = stack.pop()
+                if x is None or x["k"] == "SwitchStmt":
+                    continue
+                if x["k"] in ("CaseStmt", "DefaultStmt"):
+                    labels.append(x)
+                stack.extend(kids(x))
+            vals = selector_values(sel) if sel is not None and "init" not in sw and "condvar" not in sw else None
+            if vals is None or len(vals) > 16 or any(x["k"] == "CaseStmt" and (len(kids(x)) != 1 or not isinstance(x.get("val"), int)) for x in labels):
+                if sel is not None and from_queue(sel):
+                    self.unknown.append((sel, "switch on a value computed from %s is not evaluated: %s" % (QUEUE, dtable.describe(sel)[:50])))
+                return out
+            all_vals = set(x["val"] for x in labels if x["k"] == "CaseStmt")
+            ids = set(x["id"] for x in labels)
+            raw = [t for t in g.blocks[head].get("succ", []) if t is not None]
+            of_block = {}            # successor block -> labels of this switch that lead into it
+            if any(g.blocks[t].get("label") in ids for t in raw):
+                # clang's CFG: a block names its (outermost) label
+                for t in raw:
+                    lab = fn.byid(g.blocks[t]["label"]) if g.blocks[t].get("label") is not None else None
+                    while lab is not None and lab["id"] in ids:
+                        of_block.setdefault(t, []).append(lab)
+                        lab = kids(lab)[-1] if kids(lab) else None
+            elif getattr(fn, "normalized", False):
+                # a CFG rebuilt by engine/cfgbuild.py: one successor per label of the switch body in source order, then the way
+                # past the switch if there is no default
+                flat = []
+                body = kids(sw)[1] if len(kids(sw)) > 1 else None
+                for x in (kids(body) if body is not None and body["k"] == "CompoundStmt" else [body]):
+                    while x is not None and x["k"] in ("CaseStmt", "DefaultStmt"):
+                        flat.append(x)
+                        x = kids(x)[-1] if kids(x) else None
+                if len(flat) == len(labels) and len(raw) == len(flat) + (0 if any(x["k"] == "DefaultStmt" for x in flat) else 1) and len(set(raw)) == len(raw):
+                    for t, x in zip(raw, flat):
+                        of_block.setdefault(t, []).append(x)
+            if set(x["id"] for ls in of_block.values() for x in ls) != ids or len([t for t in set(raw) if t not in of_block]) > 1:
+                # which successor belongs to which label is not known
+                if from_queue(sel):
+                    self.unknown.append((sel, "switch on a value computed from %s: its labels were not found in the CFG" % QUEUE))
+                return out
+            mine = set(x["val"] for x in of_block.get(s, []) if x["k"] == "CaseStmt")
+            default = s not in of_block or any(x["k"] == "DefaultStmt" for x in of_block[s])   # no label: the way past a switch without default
+            res = frozenset()
+            for conds, v in vals:
+                if v in mine or (default and v not in all_vals):
+                    S2 = out
+                    for c, t in conds:
+                        S2 = refine(S2, c, t, fn)
+                    res |= S2
+            return res
+
         def edge(p, s, out):
-            raw = g.blocks[p].get("succ", [])
+            blk = g.blocks[p]
+            raw = blk.get("succ", [])
             els = g.elements(p)
-            if len(raw) == 2 and raw[0] != raw[1] and els and isinstance(els[-1], int) and g.blocks[p].get("term") is not None:
+            if blk.get("term") is None:
+                return out
+            term = fn.byid(blk["term"])
+            kind = term["k"] if term is not None else blk.get("termk")
+            if kind == "SwitchStmt":
+                return switch_edge(p, term, s, out) if term is not None and s in raw else out
+            if len(raw) == 2 and raw[0] != raw[1] and els and isinstance(els[-1], int):
+                if kind not in TWO_WAY or (term is not None and kind == "BinaryOperator" and term.get("op") not in ("&&", "||")):
+                    # a try, a range-for ...: the successors are not `condition true` / `condition false`; every edge stays possible
+                    return out
                 cond = fn.byid(els[-1])
                 if cond is not None and s in raw:
                     return refine(out, cond, raw[0] == s, fn)
@@ -1017,14 +1360,61 @@ def pool_calls(locks, fn):
     return [x for x in fn.nodes() if "callee" in x and x["callee"].get("did") in locks.by_did and x["callee"]["did"] != fn.did]
 
 
-def same_hold(locks, fn, pa, pb):
+def live_dominates(g, a, b, dead):
+    """every path from the entry to position b that uses no edge of `dead` (edges that the evaluation of the branch conditions
+    has shown to be infeasible) passes position a"""
+    if g.dominates(a, b):
+        return True
+    if not dead or a[0] == b[0]:
+        return False
+    seen, work = set(), [g.entry]
+    while work:
+        x = work.pop()
+        if x in seen or x == a[0]:
+            continue
+        seen.add(x)
+        if x == b[0]:
+            return False
+        work.extend(t for t in g.succ[x] if (x, t) not in dead)
+    return True
+
+
+def entry_path_avoiding(g, goal, targets, dead=()):
+    """cfg.path_from_entry_avoiding without the edges of `dead`: a path entry -> position goal that passes no target position
+    before it and uses feasible edges only"""
+    tset = {}
+    for t in targets:
+        if t is not None:
+            tset.setdefault(t[0], []).append(t[1])
+    dead = set(dead)
+    work = [(g.entry, [g.entry])]
+    seen = set()
+    while work:
+        b, path = work.pop()
+        if b in seen:
+            continue
+        seen.add(b)
+        if b == goal[0]:
+            if not any(j < goal[1] for j in tset.get(b, [])):
+                return path
+            continue
+        if b in tset:
+            continue
+        for t in g.succ[b]:
+            if (b, t) not in dead:
+                work.append((t, path + [t]))
+    return None
+
+
+def same_hold(locks, fn, pa, pb, dead=()):
     """positions pa and pb are executed in one hold of the mutex: the lock is held at both and no release / acquisition
     (unlock, lock, wait, construction or destruction of a guard) lies on a path between them (in the order in which they are
-    executed).  True / False; undecidable if neither comes first"""
+    executed).  True / False; undecidable if neither comes first.  dead: CFG edges known to be infeasible"""
     g = locks.g(fn)
+    dead = set(dead)
     if locks.held(fn, pos=pa) is not True or locks.held(fn, pos=pb) is not True:
         return False
-    first, second = (pa, pb) if g.dominates(pa, pb) else (pb, pa) if g.dominates(pb, pa) else (None, None)
+    first, second = (pa, pb) if live_dominates(g, pa, pb, dead) else (pb, pa) if live_dominates(g, pb, pa, dead) else (None, None)
     if first is None:
         undecided(fn, None, "order of the busy_ increment and the removal from the queue differs between paths")
     guards = locks.guards(fn)
@@ -1033,7 +1423,7 @@ def same_hold(locks, fn, pa, pb):
     rel += [(b, i) for b in g.blocks for i, el in enumerate(g.elements(b)) if isinstance(el, dict) and el.get("dtor") in guards]
     rel = [r for r in rel if r != first and r != second]
     for r in rel:
-        if g.path_between_avoiding(first, r, [first]) is not None and g.path_between_avoiding(r, second, [first]) is not None:
+        if g.path_between_avoiding(first, r, [first], blocked_edges=dead) is not None and g.path_between_avoiding(r, second, [first], blocked_edges=dead) is not None:
             return False
     return True
 
@@ -1159,7 +1549,9 @@ def run(ck):
         "is destroyed with the mutex released and before completion is signalled), WRITE-NOTIFY (every enabling write to a variable of a wait "
         "predicate - polarity derived from the predicate's truth table - is followed on all paths by a notify on that condition variable, with the "
         "mutex held at the write or at the notify), NOTIFY-KIND (notify_one only where one predicate is shared by all waiters and one unit is handed "
-        "out), NO-BARE-WAIT, BUSY-PAIR, JOIN-UNLOCKED. Whole-schedule properties (absence of deadlock / lost wake-up, exactly-once) are argued "
+        "out), NO-BARE-WAIT, BUSY-PAIR, JOIN-UNLOCKED, WAIT-RETURN (loop_until_empty / loop_until_terminate return only on paths that pass the "
+        "predicate wait or a test of the whole wait predicate in one hold of the mutex - a search over CFG block x knowledge about the atoms "
+        "of the predicate). Whole-schedule properties (absence of deadlock / lost wake-up, exactly-once) are argued "
         "from these necessary conditions, not explored. A violation is reported on positive evidence only (lock state over recognised lock "
         "operations, a CFG path avoiding fully classified operations, a truth table, the join loop evaluated for 0/1/3 threads); an "
         "unrecognised construct gives `cannot decide`.")
@@ -1167,6 +1559,8 @@ def run(ck):
     fns = [f for f in tu.find(record=TP)]
     ck.require(len(fns) >= 10, "ThreadPool members not found")
     expanded = set()         # local lambdas that are only called by name: expanded at their calls, judged through the member
+    for f in fns:
+        resolve_member_aliases(tu, f)     # reference aliases of data members read as the members themselves
     for f in fns:
         expanded |= inline_local_lambdas(tu, f)
     locks = Locks(tu, fns)
@@ -1182,6 +1576,7 @@ def run(ck):
     ck.require(len(waits) >= 3, "expected at least 3 condition-variable waits, found %d" % len(waits))
     preds = {}           # cv -> list of (text, mono, fn)
     unknown_pred = {}    # cv -> why a predicate waited for on it is not known
+    wait_of = {}         # (function, id of a wait call) -> (wait with its re-check condition filled in, canonical text of its predicate)
 
     def check_wait(w):
         fn = w["fn"]
@@ -1212,6 +1607,7 @@ def run(ck):
             unknown_pred[w["cv"]] = str(e)
             raise
         preds.setdefault(w["cv"], []).append((text, mono, fn))
+        wait_of[(fn.did, w["node"]["id"])] = (w, text)
         held = locks.held(fn, w["node"])
         if held is not True:
             ck.violation("NO-BARE-WAIT", fn.qname, "%s:%s:unlocked" % (fn.name, w["cv"]), "wait() is called without holding the mutex", fn.nloc(w["node"]))
@@ -1304,7 +1700,7 @@ def run(ck):
                 bad = (x, "%s is reached with %s" % (take_label(x), ", ".join("%s = %s" % (k, str(v).lower()) for k, v in sorted(st[0].items()))))
         if bad is None:
             for x in pops:
-                path = g.path_from_entry_avoiding(g.pos(x), [g.pos(y) for y in fronts if g.pos(y)])
+                path = entry_path_avoiding(g, g.pos(x), [g.pos(y) for y in fronts if g.pos(y)], qs.dead_edges)
                 if path is not None:
                     doubt = path_doubt(worker, g, path)
                     if doubt:
@@ -1416,11 +1812,11 @@ def run(ck):
             undecided(worker, None, "removal of the job from the queue not found: hold of the busy_ increment not decided")
         pos = g.pos_deep
         dead = queue_states(worker).dead_edges
-        good = [n for n in incs if locks.held(worker, n) is True and all(same_hold(locks, worker, pos(n), g.pos(x)) for x in pops)]
+        good = [n for n in incs if locks.held(worker, n) is True and all(same_hold(locks, worker, pos(n), g.pos(x), dead) for x in pops)]
         msg = None
         # ++busy_ under the lock, in the hold in which the job leaves the queue, on every path to job()
         # (otherwise jobs_.empty() && busy_ == 0 is observable by loop_until_empty(), which reads both under the lock, while a job is in flight)
-        path = g.path_from_entry_avoiding(pcall, [pos(n) for n in good])
+        path = entry_path_avoiding(g, pcall, [pos(n) for n in good], dead)
         if path is not None and evidence(path, J["call"]):
             msg = "a path reaches job() without ++busy_ under the lock in the hold of pop_front"
         # --busy_ and ++done_ after the job on every path, ++done_ first
@@ -1744,6 +2140,364 @@ def run(ck):
         for n in notes_of[fn.did]:
             ck.guarded(lambda fn=fn, n=n: notify_kind(fn, n))
 
+    # ---- WAIT-RETURN: a member that blocks until the pool is quiescent returns only after it has seen its WHOLE predicate under mutex_
+    # Scope: every member of the pool, other than the thread main function and what only it calls, from which a condition-variable
+    # wait is reached (loop_until_empty, loop_until_terminate; a helper they share).  The predicate P that counts is the one of the
+    # wait itself (the truth table NO-BARE-WAIT derives).  Every path from the entry of the member to its return must pass a point
+    # at which P is known to hold with mutex_ held: the return of a predicate wait on P, a call of a member that always passes such
+    # a point, or a branch whose outcome - together with what earlier branches of the same hold of mutex_ have shown - leaves only
+    # valuations of the atoms of P under which P is true.  What a test shows is forgotten when mutex_ is released, acquired or
+    # waited on, and is not kept at all if mutex_ is not held at the test (except that a flag that is only ever set stays set).
+    # The evidence of a violation is a path entry -> return over branches that are all read (every leaf an atom over a data member,
+    # a constant, a const local standing for its initialiser) on which P is never established; a branch that is not read, a helper
+    # that may or may not wait, a lambda that waits makes the answer undecidable.
+    own_waits = {}
+    for w in waits:
+        own_waits.setdefault(w["fn"].did, []).append(w)
+
+    def called_from(fn, seen):
+        if fn.did not in seen:
+            seen.add(fn.did)
+            for x in pool_calls(locks, fn):
+                called_from(locks.by_did[x["callee"]["did"]], seen)
+        return seen
+    worker_side = called_from(worker, set())
+
+    def waits_reached(fn):
+        return [w for did in sorted(called_from(fn, set())) for w in own_waits.get(did, [])]
+
+    def const_locals(fn):
+        """did -> (VarDecl, initialiser) of the const non-reference locals of fn: such a local is a snapshot of its initialiser"""
+        out = {}
+        for v in fn.nodes():
+            ty = (v.get("ty") or "").strip()
+            if v["k"] == "VarDecl" and v.get("did") is not None and ty.startswith("const ") and not ty.endswith("&") and not ty.endswith("*") \
+                    and not v.get("isref") and not v.get("static") and kids(v) and kids(v)[0] is not None and ty.replace("const ", "") in \
+                    ("bool", "int", "unsigned int", "long", "unsigned long", "size_t", "std::size_t"):
+                out[v["did"]] = (v, kids(v)[0])
+        return out
+
+    class WaitFlow:
+        """search over (CFG block, what the tests of the current hold of mutex_ have shown about the atoms of P) for a path from the
+        entry of fn to its return on which P is never established.  strict: only steps that are fully understood are taken"""
+
+        def __init__(self, fn, atoms, rows, memo):
+            self.fn, self.atoms, self.rows, self.memo = fn, atoms, rows, memo
+            self.g = locks.g(fn)
+            self.n = len(atoms)
+            self.top = frozenset(rows)
+            self.ptrue = frozenset(v for v, r in rows.items() if r)
+            self.guards = locks.guards(fn)
+            self.decl_guards = set(locks.base[fn.did].decl_at)
+            self.waits_here = dict((w["node"]["id"], w) for w in own_waits.get(fn.did, []))
+            self.snaps = const_locals(fn)
+            self.pfields = set(a.split(".")[0].split("==")[0] for a in atoms)
+            self.writes = {}
+            self.write_unplaced = None
+            for f, kind, node, info in uses[fn.did]:
+                if kind in ("read", "sync") or f not in self.pfields:
+                    continue
+                idx = set(i for i, a in enumerate(atoms) if a in (f, f + ".empty", f + "==0"))
+                p = self.g.pos_deep(node)
+                if p is None:
+                    self.write_unplaced = node
+                else:
+                    self.writes.setdefault(p, set()).update(idx)
+            self._cond = {}
+            try:
+                self.dead = set(queue_states(fn).dead_edges)
+            except ir.AnalysisBroken:
+                self.dead = set()
+
+        def havoc(self, K, idx=None):
+            """the atoms (all, or those of idx) may have any value again; a flag that is only ever set stays set"""
+            out = set()
+            for v in K:
+                vals = [()]
+                for i in range(self.n):
+                    keep = (idx is not None and i not in idx) or (self.atoms[i] in mono_flags and v[i])
+                    vals = [x + (b,) for x in vals for b in ((v[i],) if keep else (False, True))]
+                out.update(vals)
+            return frozenset(out)
+
+        def cond_info(self, b):
+            """what the condition at the end of block b shows: ({True: valuations under which it can be true, False: ...}, held) or
+            (None, reason) if it is not read"""
+            if b in self._cond:
+                return self._cond[b]
+            fn, g = self.fn, self.g
+            els = g.elements(b)
+            cond = fn.byid(els[-1])
+            opaque, used = [], set()
+
+            def atomize(n, run):
+                s = strip_casts(n)
+                if s is None:
+                    return None
+                a = pred_atom(s)
+                if a is not None:
+                    return a
+                k = s["k"]
+                if (k == "UnaryOperator" and s.get("op") == "!") or (k == "BinaryOperator" and s.get("op") in ("&&", "||")) or \
+                        k in ("ConditionalOperator", "CXXBoolLiteralExpr") or const_int(s) is not None:
+                    return None
+                if k == "DeclRefExpr" and s["ref"]["id"] in self.snaps:
+                    used.add(s["ref"]["id"])
+                    return None
+                if "callee" in s and dtable.inline_call(fn, s) is not None:
+                    return None          # a named predicate / a small accessor: its value is the expression it returns
+                opaque.append(s)
+                return ("opaque:%s" % s["id"], False)
+
+            def pre(r):
+                for did, (v, init) in self.snaps.items():
+                    r.env[did] = init
+            res = None
+            try:
+                leaves = dtable.explore(cond, atomize, fn, as_expr=True, pre=pre)
+            except dtable.Undecidable as e:
+                res = (None, "the test `%s` (line %s) is not understood" % (dtable.describe(cond)[:50], cond.get("l")))
+            if res is None and opaque:
+                res = (None, "the test `%s` (line %s) is not read: `%s` is not a test of a data member" % (dtable.describe(cond)[:50], cond.get("l"), dtable.describe(opaque[0])[:40]))
+            if res is None:
+                tab = {True: set(), False: set()}
+                for v in self.top:
+                    for l in leaves:
+                        if all(l["val"].get(a, v[i]) == v[i] for i, a in enumerate(self.atoms)):
+                            tab[bool(l["result"])].add(v)
+                pos = (b, len(els) - 1)
+                held = locks.held(fn, pos=pos)
+                for did in sorted(used):
+                    # a const local is read where it is declared: what it shows counts for this hold of mutex_ only if it is declared in it
+                    pd = g.pos_deep(self.snaps[did][0])
+                    same = pd is not None and held is True and not self.writes
+                    if same:
+                        try:
+                            same = same_hold(locks, fn, pd, pos, self.dead)
+                        except dtable.Undecidable:
+                            same = False
+                    if not same:
+                        s = strip_casts(cond)
+                        while s is not None and s["k"] == "UnaryOperator" and s.get("op") == "!":
+                            s = strip_casts(kids(s)[0])
+                        if s is not None and s["k"] == "DeclRefExpr" and s["ref"]["id"] == did and pd is not None and not self.writes:
+                            held = False if held is True else held          # a snapshot taken in another hold: as good as a test without mutex_
+                        else:
+                            res = (None, "the test `%s` (line %s) mixes the const local `%s`, which was read in another hold of %s, with other terms"
+                                   % (dtable.describe(cond)[:50], cond.get("l"), self.snaps[did][0].get("name"), MUTEX))
+                if res is None:
+                    res = (tab, held)
+            self._cond[b] = res
+            return res
+
+        def transfer(self, el, pos, K, strict):
+            """K after the element, None if P is established there, () if the step is not taken (strict)"""
+            fn = self.fn
+            if isinstance(el, dict):
+                return self.havoc(K) if el.get("dtor") in self.guards else K
+            nd = fn.byid(el)
+            if nd is None:
+                return K
+            if pos in self.writes:
+                K = self.havoc(K, self.writes[pos])
+            if nd["k"] == "DeclStmt" and nd["id"] in self.decl_guards:
+                return self.havoc(K)
+            if "callee" in nd and kids(nd):
+                name = nd["callee"]["name"]
+                if nd.get("member_call") or nd["k"] == "CXXOperatorCallExpr":
+                    obj = kids(nd)[0]
+                    if name in ("lock", "unlock", "try_lock") and (ref_of(obj) in self.guards or match.this_field(obj) == MUTEX):
+                        return self.havoc(K)
+                    if name in WAITS and "condition_variable" in (nd["callee"].get("record") or ""):
+                        w = self.waits_here.get(nd["id"])
+                        if w is not None and w["pred"] is not None and name == "wait":
+                            return None          # the wait returns with its predicate true, evaluated under the mutex
+                        # a bare wait may return at any time (the loop around it re-checks); a timed wait returns when the time is
+                        # up, with its predicate false
+                        return self.havoc(K)
+                did = nd["callee"].get("did")
+                if did in locks.by_did and did != fn.did:
+                    cal = locks.by_did[did]
+                    r = self.memo(cal)
+                    if r == "must":
+                        return None
+                    if r == "may":
+                        if strict:
+                            return ()
+                        self.note = self.note or (nd, "%s() waits on some of its paths only, or in a way that is not understood" % cal.name)
+                        return self.havoc(K)
+                    rf = reach_fields(locks, cal)
+                    if MUTEX in rf or self.pfields & rf:
+                        return self.havoc(K)
+            return K
+
+        def edge(self, b, s, K, strict):
+            """(K on the edge b -> s | None if P is established | () if the edge is not taken, description of the test)"""
+            fn, g = self.fn, self.g
+            blk = g.blocks[b]
+            raw = blk.get("succ", [])
+            els = g.elements(b)
+            if blk.get("term") is None or len(set(t for t in raw if t is not None)) < 2:
+                return K, None
+            term = fn.byid(blk["term"])
+            kind = term["k"] if term is not None else blk.get("termk")
+            if kind == "SwitchStmt":
+                if strict:
+                    return (), None
+                self.note = self.note or (term, "the switch in line %s is not evaluated" % (term.get("l") if term is not None else "?"))
+                return K, None
+            if not (len(raw) == 2 and raw[0] != raw[1] and els and isinstance(els[-1], int) and kind in TWO_WAY) or \
+                    (term is not None and kind == "BinaryOperator" and term.get("op") not in ("&&", "||")) or s not in raw:
+                return K, None          # try, range-for: the edges are not `condition true / false`, nothing is learnt
+            cond = fn.byid(els[-1])
+            if cond is None:
+                return K, None
+            tab, held = self.cond_info(b)
+            truth = raw[0] == s
+            if tab is None:
+                if strict:
+                    return (), None
+                self.note = self.note or (cond, held)
+                return K, None
+            K2 = frozenset(v for v in K if v in tab[truth])
+            if not K2:
+                return (), None
+            if held is None:
+                # held on some paths only: what the test shows on the path searched is not decided
+                if strict:
+                    return (), None
+                self.note = self.note or (cond, "whether %s is held at the test `%s` (line %s) differs between paths" % (MUTEX, dtable.describe(cond)[:40], cond.get("l")))
+                return self.havoc(K2), (cond, truth, False)
+            if held is True:
+                if K2 <= self.ptrue:
+                    return None, None
+                return K2, (cond, truth, True)
+            return self.havoc(K2), (cond, truth, False)
+
+        def search(self, strict):
+            """(blocks of the path, tests on it) of a path entry -> return on which P is never established, else None"""
+            g = self.g
+            self.note = None
+            if self.write_unplaced is not None and not strict:
+                self.note = (self.write_unplaced, "a write to a variable of the predicate was not found in the CFG")
+            start = (g.entry, self.top)
+            parent = {start: None}
+            work = [start]
+            head = 0
+            while head < len(work):
+                if len(work) > 20000:
+                    undecided(self.fn, None, "search for a return without the wait predicate does not end in %s" % self.fn.qname)
+                b, K = work[head]
+                head += 1
+                if b == g.exit:
+                    path, tests = [], []
+                    x = (b, K)
+                    while x is not None:
+                        path.append(x[0])
+                        link = parent[x]
+                        if link is None:
+                            break
+                        if link[1] is not None:
+                            tests.append(link[1])
+                        x = link[0]
+                    return path[::-1], tests[::-1]
+                cur = K
+                for i, el in enumerate(g.elements(b)):
+                    cur = self.transfer(el, (b, i), cur, strict)
+                    if cur is None or cur == ():
+                        break
+                if cur is None or cur == ():
+                    continue
+                for s in g.succ[b]:
+                    if (b, s) in self.dead:
+                        continue
+                    K2, info = self.edge(b, s, cur, strict)
+                    if K2 is None or not K2:
+                        continue
+                    if (s, K2) not in parent:
+                        parent[(s, K2)] = ((b, K), info)
+                        work.append((s, K2))
+            return None
+
+    def wait_return(fn):
+        ws = waits_reached(fn)
+        where = fn.qname
+        for lx, lf in lambdas_in(tu, fn):
+            if lf is None:
+                undecided(fn, lx, "body of a lambda not in the IR")
+            if sync.wait_calls(lf):
+                undecided(fn, lx, "a lambda in %s() waits on a condition variable; where it runs is not followed" % fn.name)
+            if any("callee" in y and y["callee"].get("did") in locks.by_did and waits_reached(locks.by_did[y["callee"]["did"]]) for y in lf.nodes()):
+                undecided(fn, lx, "a lambda in %s() calls a member that waits; where it runs is not followed" % fn.name)
+        for w in ws:
+            if (w["fn"].did, w["node"]["id"]) not in wait_of:
+                undecided(w["fn"], w["node"], "the predicate of the wait on %s is not understood%s: whether %s() returns only after it holds is not decided"
+                          % (w["cv"], " (%s)" % unknown_pred[w["cv"]] if w["cv"] in unknown_pred else "", fn.name))
+        texts = sorted(set(wait_of[(w["fn"].did, w["node"]["id"])][1] for w in ws))
+        if len(texts) != 1:
+            undecided(fn, ws[0]["node"], "%s() waits for %d different predicates (%s): which one it promises at its return is not decided" % (fn.name, len(texts), " | ".join(texts)))
+        w0 = wait_of[(ws[0]["fn"].did, ws[0]["node"]["id"])][0]
+        e, negate, lf = pred_expr(tu, w0)
+        leaves = dtable.explore(e, pred_atom, lf, as_expr=True)
+        atoms = sorted(dtable.atoms_of(leaves))
+        rows = {}
+        for v, l in dtable.table(leaves, None, atoms):
+            rows[tuple(v[a] for a in atoms)] = (not l["result"]) if negate else l["result"]
+        busy = set()
+        verdicts = {}
+
+        def establishes(cal):
+            """must: every path through cal passes a point at which P holds under mutex_; no: cal does not wait; may: anything else"""
+            if cal.did in verdicts:
+                return verdicts[cal.did]
+            if not waits_reached(cal):
+                return "no"
+            if cal.did in busy or cal.did not in locks.base:
+                return "may"
+            busy.add(cal.did)
+            try:
+                r = "must" if WaitFlow(cal, atoms, rows, establishes).search(False) is None else "may"
+            except ir.AnalysisBroken:
+                r = "may"
+            finally:
+                busy.discard(cal.did)
+            verdicts[cal.did] = r
+            return r
+        busy.add(fn.did)
+        flow = WaitFlow(fn, atoms, rows, establishes)
+        wit = flow.search(True)
+        if wit is None:
+            wit2 = flow.search(False)
+            if wit2 is not None:
+                node, what = flow.note if flow.note else (None, "a step on the path is not understood")
+                undecided(fn, node, "%s() may return without its wait predicate %s having held under %s, but %s" % (fn.name, texts[0], MUTEX, what))
+            ck.ok("WAIT-RETURN", where, "every path to the return passes a point at which the whole wait predicate %s holds with %s held "
+                  "(the predicate wait, or a test of all its terms in one hold)" % (texts[0], MUTEX))
+            return
+        path, tests = wit
+        doubt = path_doubt(fn, flow.g, path)
+        if doubt:
+            undecided(fn, None, doubt)
+        if locks.callers(fn):
+            undecided(fn, None, "%s() has a path to its return that does not establish the wait predicate %s, but it is called from %s: the wait may follow there"
+                      % (fn.name, texts[0], locks.callers(fn)[0][0].qname))
+        if tests:
+            seen = ", ".join("`%s` is %s (line %s, %s %s)" % (dtable.describe(c)[:40], "true" if t else "false", c.get("l"), MUTEX, "held" if h else "not held")
+                             for c, t, h in tests[-3:])
+            loc = fn.nloc(tests[-1][0])
+        else:
+            seen = "no test of the predicate"
+            loc = fn.loc
+        ck.violation("WAIT-RETURN", fn.qname, fn.name + ":return",
+                     "%s() can return without its wait predicate %s having held under %s: the function promises quiescence, but on a path to its return "
+                     "the only tests are %s - a part of the predicate, or a test without the mutex, lets it return while a job is still running"
+                     % (fn.name, texts[0], MUTEX, seen), loc)
+    for fn in fns:
+        if fn.kind == "ctor" or not fn.cfg or fn.did in worker_side:
+            continue
+        if waits_reached(fn) or any(lf is not None and sync.wait_calls(lf) for lx, lf in lambdas_in(tu, fn)):
+            ck.guarded(lambda fn=fn: wait_return(fn))
+
     # ---- join with the mutex released; every thread joined exactly once
     def join_rule(fn, joins):
         """joins: [(node of the join call, function that holds it, (site fn, node at whose evaluation it runs))]"""
@@ -1799,11 +2553,13 @@ def run(ck):
     ck.floor("EXCEPTION-BALANCED", 1)
     ck.floor("JOB-LIFETIME", 1)
     ck.floor("JOIN-UNLOCKED", 1)
+    ck.floor("WAIT-RETURN", 2)
 
     def per_function_floors():
         if ck.violations or ck.known_hits:
             return
-        for rule, need in (("WRITE-NOTIFY", {"worker": 2, "enqueue": 1, "terminate": 2}), ("NOTIFY-KIND", {"worker": 1, "enqueue": 1, "terminate": 2})):
+        for rule, need in (("WRITE-NOTIFY", {"worker": 2, "enqueue": 1, "terminate": 2}), ("NOTIFY-KIND", {"worker": 1, "enqueue": 1, "terminate": 2}),
+                           ("WAIT-RETURN", {"loop_until_empty": 1, "loop_until_terminate": 1})):
             for name, n in need.items():
                 q = TP + "::" + name
                 got = sum(1 for r, where, ok_, d in ck.instances if r == rule and (where == q or where.startswith(q + ":") or where.startswith(q + " ")))
